@@ -107,6 +107,10 @@ class FuncTranslator:
             return t, "bool"
         if isinstance(e, ast.Call):
             f = e.func
+            if (ast.unparse(f) == "np.digitize" and len(e.args) == 2 and isinstance(e.args[1], ast.Name)
+                    and e.args[1].id in getattr(self.mod, "digitize_tables", {})
+                    and [(k.arg, ast.unparse(k.value)) for k in e.keywords] == [("right", "False")]):
+                return f"(digitize {self.mod.digitize_tables[e.args[1].id]} {self.as_z(e.args[0], env)})", "Z"
             if e.keywords:
                 self.fail(e, "keyword arguments")
             if isinstance(f, ast.Attribute) and isinstance(f.value, ast.Name) and f.value.id == "np":
@@ -125,15 +129,15 @@ class FuncTranslator:
         if isinstance(e, ast.Subscript):
             if not (isinstance(e.value, ast.Name) and e.value.id in self.mod.tables):
                 self.fail(e, "subscript of something that is not a known table")
-            tname = self.mod.tables[e.value.id]
+            tname, tkind = self.mod.tables[e.value.id]
             idx = e.slice
             if isinstance(idx, ast.Tuple):
                 if len(idx.elts) != 2:
                     self.fail(e, "table index arity")
                 i = self.as_z(idx.elts[0], env)
                 j = self.as_z(idx.elts[1], env)
-                return f"(tlookup2 {tname} {i} {j})", "T"
-            return f"(tlookup {tname} {self.as_z(idx, env)})", "T"
+                return f"(tlookup2 {tname} {i} {j})", tkind
+            return f"(tlookup {tname} {self.as_z(idx, env)})", tkind
         self.fail(e, "unsupported expression")
 
     def as_z(self, e, env):
@@ -238,7 +242,7 @@ class ModuleTranslator:
         body = ft.translate()
         params = [(a.arg, ft.env[a.arg]) for a in fn.args.args]
         ret = ft.ret_type
-        cret = {"Z": "Z", "bool": "bool", "T": "T"}[ret]
+        cret = {"Z": "Z", "bool": "bool", "R": "R"}[ret]
         name = coqname or fn.name
         ps = " ".join(f"({mangle(n)} : {'bool' if t == 'bool' else 'Z'})" for n, t in params)
         self.out.append(f"Definition {name} {ps} : {cret} :=\n  {body}.\n")
